@@ -627,6 +627,16 @@ pub fn key_candidates(ver: u8, thorough: bool) -> Vec<(String, Vec<u8>)> {
                 let mut long = vec![0u8];
                 long.extend_from_slice(&s);
                 c.push((format!("scalar {l} 49 bytes"), long));
+                // numerically the same scalar in 64 / 96 bytes (zero bytes in front), and a valid scalar followed by zeros
+                let mut z64 = vec![0u8; 16];
+                z64.extend_from_slice(&s);
+                c.push((format!("scalar {l} with 16 zero bytes in front (64 bytes)"), z64));
+                let mut z96 = vec![0u8; 48];
+                z96.extend_from_slice(&s);
+                c.push((format!("scalar {l} with 48 zero bytes in front (96 bytes)"), z96));
+                let mut t64 = s.clone();
+                t64.extend_from_slice(&[0u8; 16]);
+                c.push((format!("scalar {l} followed by 16 zero bytes (64 bytes)"), t64));
             }
         }
         2 | 4 => {
@@ -672,6 +682,30 @@ pub fn key_candidates(ver: u8, thorough: bool) -> Vec<(String, Vec<u8>)> {
                 let mut bad = good.clone();
                 bad[bit / 8] ^= 1 << (bit % 8);
                 c.push((format!("secret: consistent pair with bit {bit} flipped"), bad));
+            }
+            // the halves of a consistent key at the two ENDS of a longer string, and doubled / padded forms
+            {
+                let pkb = vk.to_bytes();
+                let mut a = seed.to_vec();
+                a.extend_from_slice(&[0x5a; 32]);
+                a.extend_from_slice(&pkb);
+                c.push(("secret: seed || 32 other bytes || public key (96 bytes)".into(), a));
+                let mut b = good.clone();
+                b.extend_from_slice(&good);
+                c.push(("secret: key || key (128 bytes)".into(), b));
+                let mut d = seed.to_vec();
+                d.extend_from_slice(&pkb);
+                d.extend_from_slice(&pkb);
+                c.push(("secret: seed || public key || public key (96 bytes)".into(), d));
+                let mut e = vec![0u8; 32];
+                e.extend_from_slice(&good);
+                c.push(("secret: 32 zero bytes || key (96 bytes)".into(), e));
+                let mut f = pkb.to_vec();
+                f.extend_from_slice(&[0x5a; 1]);
+                c.push(("public: key || 1 byte (33 bytes)".into(), f));
+                let mut g = vec![0u8; 1];
+                g.extend_from_slice(&pkb);
+                c.push(("public: 00 || key (33 bytes)".into(), g));
             }
             let other = ed25519_dalek::SigningKey::from_bytes(&[8u8; 32]).verifying_key();
             let mut swapped = seed.to_vec();
